@@ -114,7 +114,9 @@ class Symbol(Node):  # pylint: disable=too-few-public-methods
     """
 
     def get_str_repr(self, sons_repr):
-        return str(self.value)
+        # Operators that are part of the symbol have to stay escaped
+        return "".join("\\" + char if char in SPECIAL_SYMBOLS else char
+                       for char in str(self.value))
 
     def get_cfg_rules(self, current_symbol, sons):
         """ Gets the rules for a context-free grammar to represent the \
